@@ -1538,12 +1538,20 @@ func constComputable(v ssa.Value, depth int) bool {
 	case *ssa.ChangeType:
 		return constComputable(x.X, depth+1)
 	case *ssa.Phi:
+		// a join is a constant only if every way in carries the same constant (which way is taken is data)
+		var first *ssa.Const
 		for _, e := range x.Edges {
-			if !constComputable(e, depth+1) {
+			k, isK := e.(*ssa.Const)
+			if !isK || k.Value == nil {
+				return false
+			}
+			if first == nil {
+				first = k
+			} else if !constant.Compare(first.Value, token.EQL, k.Value) {
 				return false
 			}
 		}
-		return len(x.Edges) > 0
+		return first != nil
 	}
 	return false
 }
